@@ -377,7 +377,13 @@ func WithMoreUpdateMask(mask *fieldmaskpb.FieldMask) WriteOption {
 		if request.UpdateMask == nil {
 			return // a nil update mask means all fields are writable anyway
 		}
-		request.UpdateMask = fieldmaskpb.Union(request.UpdateMask, mask)
+		// The paths are kept as given, not normalised as fieldmaskpb.Union would: normalising drops a path that lies
+		// inside another one, {f, f.unknown} becomes {f}, and the write would be accepted although the update mask
+		// mentions unknown fields.
+		paths := make([]string, 0, len(request.UpdateMask.GetPaths())+len(mask.GetPaths()))
+		paths = append(paths, request.UpdateMask.GetPaths()...)
+		paths = append(paths, mask.GetPaths()...)
+		request.UpdateMask = &fieldmaskpb.FieldMask{Paths: paths}
 	})
 }
 
